@@ -18,6 +18,7 @@ struct Tables {
     z_pieces: Table, z_total: Table, z128: Option<Table>, zbig: Option<Table>,
     q: Table, q_total: Table, f2: Table, f2b: Table, f3: Table, f2_total: Table, f3_total: Table,
     red_f2: Option<Table>, red_z_pieces: Option<Table>, red_z_total: Option<Table>,
+    z_windowed: Option<Table>, f3_windowed: Option<Table>,
 }
 
 fn compute(pd: &PD, heavy: bool) -> Tables {
@@ -39,6 +40,8 @@ fn compute(pd: &PD, heavy: bool) -> Tables {
         red_f2: if nonempty { Some(kh_table_pieces::<FF2>(&l, true, &cfg)) } else { None },
         red_z_pieces: if nonempty && !heavy { Some(kh_table_pieces::<i64>(&l, true, &cfg)) } else { None },
         red_z_total: if nonempty && !heavy { Some(kh_table_total::<i64>(&l, true, &cfg)) } else { None },
+        z_windowed: if nonempty && !heavy && pd.n() <= 9 { Some(kh_table_windowed::<i64>(&l, false)) } else { None },
+        f3_windowed: if nonempty && !heavy && pd.n() <= 9 { Some(kh_table_windowed::<FF<3>>(&l, false)) } else { None },
     }
 }
 
@@ -58,6 +61,8 @@ fn judge(t: &Tables) -> Vec<(&'static str, String)> {
     if t.f3 != t.f3_total { out.push(("two-routes-f3", "over F3 the two routes differ".into())) }
     if t.f2 != t.f2b { out.push(("ff2-vs-ff<2>", "FF2 and FF<2> give different tables".into())) }
     if let (Some(a), Some(b)) = (&t.red_z_pieces, &t.red_z_total) { if a != b { out.push(("two-routes-reduced", "reduced theory over Z: the two routes differ".into())) } }
+    if let Some(x) = &t.z_windowed { if x != &t.z_pieces { out.push(("windowed-z", format!("over Z the table assembled column by column from truncated windows {:?} differs from the table of the whole complex {:?}", x, t.z_pieces))) } }
+    if let Some(x) = &t.f3_windowed { if x != &t.f3 { out.push(("windowed-f3", "over F3 the table assembled column by column from truncated windows differs from the table of the whole complex".into())) } }
     let z = &t.z_pieces;
     if ranks_of(&t.q) != expected_over(RingKind::Q, z) || t.q.values().any(|v| !v.1.is_empty()) {
         out.push(("q-vs-z", format!("ranks over Q {:?} differ from the free ranks over Z {:?}", ranks_of(&t.q), expected_over(RingKind::Q, z))))
